@@ -38,12 +38,14 @@ package main
 import (
 	"bytes"
 	"encoding/gob"
-	"errors"
 	"fmt"
 	"net"
 	"os"
+	osexec "os/exec"
 	"path/filepath"
+	"runtime"
 	"sort"
+	"strconv"
 	"strings"
 	"sync"
 	"sync/atomic"
@@ -53,7 +55,6 @@ import (
 	"github.com/semihalev/sdns/config"
 	"github.com/semihalev/sdns/internal/verif/vlib"
 	"github.com/semihalev/sdns/middleware/resolver"
-	"github.com/semihalev/sdns/middleware/resolver/dnssec"
 )
 
 // ---------------------------------------------------------------- scripted root
@@ -163,7 +164,6 @@ func newSim(cfgKeys []kref) *sim {
 	startServer()
 	if S != nil {
 		_ = os.RemoveAll(S.dir)
-		_ = os.RemoveAll(S.dir + ".aside")
 	}
 	caseSeq++
 	d := filepath.Join(baseDir(), fmt.Sprintf("c%d", caseSeq))
@@ -177,20 +177,82 @@ func newSim(cfgKeys []kref) *sim {
 	return s
 }
 
-func (s *sim) newProcess() {
+func makeResolver(dir, addr string, keys []kref) *resolver.Resolver {
 	cfg := new(config.Config)
-	cfg.RootServers = []string{srvAddr}
-	for _, k := range s.cfg {
+	cfg.RootServers = []string{addr}
+	for _, k := range keys {
 		cfg.RootKeys = append(cfg.RootKeys, k.rr().String())
 	}
 	cfg.Maxdepth = 30
 	cfg.Expire = 600
 	cfg.CacheSize = 1024
 	cfg.Timeout.Duration = 1500 * time.Millisecond
-	cfg.Directory = s.dir
+	cfg.Directory = dir
 	cfg.IPv6Access = false
 	cfg.DNSSEC = "on"
-	s.r = resolver.NewResolver(cfg)
+	return resolver.NewResolver(cfg)
+}
+
+func (s *sim) newProcess() { s.r = makeResolver(s.dir, srvAddr, s.cfg) }
+
+// childMain is the body of the separate process used by `autota killrun`:
+// a fresh resolver on the directory, one AutoTA run, exit. The parent runs it
+// under `strace -e inject=…:signal=SIGKILL:when=N`, which kills it on entry to
+// its N-th rename — a real crash between / before the file replacements.
+func childMain(dir, addr, cfgKeys string) {
+	// strace counts injections per thread: keep every syscall of AutoTA on one
+	runtime.LockOSThread()
+	vlib.Quiet()
+	r := makeResolver(dir, addr, parseRefs(cfgKeys))
+	before := resolver.VerifC09RefreshCounters()
+	resolver.VerifC09AutoTA(r)
+	after := resolver.VerifC09RefreshCounters()
+	out := "none"
+	for i := 0; i < 6; i++ {
+		if after[i] != before[i] {
+			out = outcomeNames[i]
+		}
+	}
+	fmt.Println("res=" + out)
+}
+
+// killRun: real process, real SIGKILL at the (k+1)-th rename.
+func (s *sim) killRun(sp *runSpec, k int) (string, bool) {
+	s.r = nil // the previous process is gone; the child is the new one
+	r0 := time.Now()
+	s.normalise(r0)
+	sc := &script{answer: buildAnswer(sp.fetch, sp.signers, sp.bad)}
+	sc.hook = func() {
+		if s.fetchProbe != nil {
+			s.fetchProbe()
+		}
+	}
+	cur.Store(sc)
+	defer cur.Store(nil)
+	exe, err := os.Executable()
+	if err != nil {
+		panic(err)
+	}
+	inj := "inject=rename,renameat,renameat2:signal=SIGKILL:when=" + strconv.Itoa(k+1)
+	cmd := osexec.Command("strace", "-f", "-o", "/dev/null", "-e", "trace=rename,renameat,renameat2", "-e", inj,
+		exe, "child", s.dir, srvAddr, joinRefs(s.cfg))
+	cmd.Env = append(os.Environ(), "VERIF_LOG=")
+	outB, _ := cmd.Output()
+	out := strings.TrimSpace(string(outB))
+	killed := !strings.HasPrefix(out, "res=")
+	outcome := "ok" // killed inside the persistence tail: the refresh had been accepted
+	if !killed {
+		outcome = strings.TrimPrefix(out, "res=")
+	}
+	s.lastRevokedDelta = 1 // the child's counters died with it: let the ground truth decide
+	// a process killed before its rename leaves its temp file behind; nothing ever reads it
+	ents, _ := os.ReadDir(s.dir)
+	for _, e := range ents {
+		if strings.Contains(e.Name(), ".tmp.") {
+			_ = os.Remove(filepath.Join(s.dir, e.Name()))
+		}
+	}
+	return outcome, killed
 }
 
 func round60(d time.Duration) int64 {
@@ -614,6 +676,26 @@ func exec(op string) vlib.Res {
 			return vlib.Res{Impl: "bad-op"}
 		}
 		return vlib.Res{Impl: S.obs(), Oracle: "ok"}
+	case "killrun":
+		// autota killrun <fetch> <signers> <k>: restart, then a run in a real
+		// child process that is SIGKILLed on entry to its (k+1)-th rename
+		if len(f) < 5 {
+			return vlib.Res{Impl: "bad-op"}
+		}
+		k := vlib.Atoi(f[4])
+		sp := &runSpec{crash: k, fetch: parseRefs(f[2]), signers: parseRefs(f[3])}
+		S.r = nil
+		pre := S.orc.before(S, sp)
+		outcome, killed := S.killRun(sp, k)
+		if !killed {
+			// fewer than k+1 renames happened: the run completed and the process exited
+			sp.crash = 2
+		}
+		verdict, tags := S.orc.after(S, sp, pre, outcome)
+		if killed {
+			tags += ",sigkill"
+		}
+		return vlib.Res{Impl: S.obs(), Oracle: verdict, Tags: tags}
 	case "run":
 		if len(f) < 6 {
 			return vlib.Res{Impl: "bad-op"}
@@ -675,6 +757,10 @@ func cleanup() {
 }
 
 func main() {
+	if len(os.Args) == 5 && os.Args[1] == "child" {
+		childMain(os.Args[2], os.Args[3], os.Args[4])
+		return
+	}
 	if len(os.Args) > 2 && os.Args[1] == "tags" {
 		// debugging aid: print the key refs of material ids 0..n-1
 		for i := 0; i < vlib.Atoi(os.Args[2]); i++ {
@@ -685,6 +771,3 @@ func main() {
 	defer cleanup()
 	vlib.Main(&vlib.Driver{Facts: facts, Exec: exec, Gen: gen})
 }
-
-var _ = errors.New
-var _ = dnssec.KeyTag
